@@ -41,7 +41,7 @@ ASSUMPTIONS = [
 ]
 PROFILE = gen.profile(
     len=(4, 25), known_ints=0.7,
-    w={'action': 30, 'setreg': 14, 'default': 4, 'repeat': 4, 'if': 3,
+    w={'action': 30, 'setreg': 14, 'default': 4, 'black': 2.5, 'repeat': 4, 'if': 3,
        'assign': 3, 'print': 2, 'routine': 1.5, 'call': 2, 'units': 1.5,
        'get': 0.3, 'time': 0.3, 'time_at': 0, 'wait': 0.2, 'printf': 0.3,
        'break': 0.5, 'return': 0.5, 'define': 2})
